@@ -40,7 +40,10 @@ func (vc *FnVC) val(v ssa.Value) Val {
 // funcRef is the constant reference denoting a static function value.
 func (vc *FnVC) funcRef(f *ssa.Function) string {
 	name := "fn$" + sanitize(f.String())
-	vc.enc.declConst(name, sInt)
+	if !vc.enc.declared[name] {
+		vc.enc.declConst(name, sInt)
+		vc.emit("(< " + name + " 0)")
+	}
 	// function references are negative and distinct by name through an id function
 	vc.enc.declFun("fnid", []string{sInt}, sInt)
 	return name
@@ -272,9 +275,9 @@ func (vc *FnVC) instr(ins ssa.Instruction, st *State) {
 		m := x.Type().Underlying().(*types.Map)
 		mh, mv, ks, vs := vc.mapComps(m)
 		r := vc.newRef(st, "map")
-		vc.setComp(st, mh, sto(vc.cur(st, mh), r, "((as const "+arraySort(ks, sBool)+") false)"))
-		vc.setComp(st, mv, sto(vc.cur(st, mv), r, "((as const "+arraySort(ks, vs)+") "+vc.enc.zero(m.Elem())+")"))
-		vc.setComp(st, "ML", sto(vc.cur(st, "ML"), r, "0"))
+		vc.setCompFresh(st, mh, sto(vc.cur(st, mh), r, "((as const "+arraySort(ks, sBool)+") false)"))
+		vc.setCompFresh(st, mv, sto(vc.cur(st, mv), r, "((as const "+arraySort(ks, vs)+") "+vc.enc.zero(m.Elem())+")"))
+		vc.setCompFresh(st, "ML", sto(vc.cur(st, "ML"), r, "0"))
 		vc.setTerm(x, r)
 	case *ssa.MakeSlice:
 		sl := x.Type().Underlying().(*types.Slice)
@@ -282,7 +285,7 @@ func (vc *FnVC) instr(ins ssa.Instruction, st *State) {
 		ln, cp := vc.term(x.Len).S, vc.term(x.Cap).S
 		vc.safety("makeslice-len", and("(<= 0 "+ln+")", "(<= "+ln+" "+cp+")"))
 		r := vc.newRef(st, "arr")
-		vc.setComp(st, comp, sto(vc.cur(st, comp), r, "((as const "+arraySort(sInt, es)+") "+vc.enc.zero(sl.Elem())+")"))
+		vc.setCompFresh(st, comp, sto(vc.cur(st, comp), r, "((as const "+arraySort(sInt, es)+") "+vc.enc.zero(sl.Elem())+")"))
 		vc.define(x, "(mk-slice "+r+" "+ln+" "+cp+")")
 	case *ssa.MapUpdate:
 		vc.doMapUpdate(x, st)
@@ -466,8 +469,8 @@ func (vc *FnVC) storePtr(st *State, p string, t types.Type, v string) {
 				continue
 			}
 			comp, _, _ := vc.fieldComp(t, i)
-			vc.frameCheck(st, comp, p)
-			vc.setComp(st, comp, sto(vc.cur(st, comp), p, fv))
+			fr := vc.frameCheck(st, comp, p)
+			vc.setCompF(st, comp, sto(vc.cur(st, comp), p, fv), fr)
 		}
 		return
 	}
@@ -487,8 +490,8 @@ func (vc *FnVC) storePtr(st *State, p string, t types.Type, v string) {
 		vc.setComp(st, fc, ite(is, sto(vc.cur(st, fc), obj, v), vc.cur(st, fc)))
 	}
 	if len(anyFa) == 0 {
-		vc.frameCheck(st, comp, p)
-		vc.setComp(st, comp, sto(vc.cur(st, comp), p, v))
+		fr := vc.frameCheck(st, comp, p)
+		vc.setCompF(st, comp, sto(vc.cur(st, comp), p, v), fr)
 		return
 	}
 	isField := or(anyFa...)
@@ -542,12 +545,13 @@ func (vc *FnVC) doStore(x *ssa.Store, st *State) {
 	v := vc.term(x.Val)
 	if a.k == vLval {
 		ref := a.lv.ref
+		fr := false
 		if ref != "" {
-			vc.frameCheck(st, a.lv.comp, ref)
+			fr = vc.frameCheck(st, a.lv.comp, ref)
 		} else {
 			vc.frameCheck(st, a.lv.comp, "")
 		}
-		vc.storeLv(st, a.lv, v.S)
+		vc.storeLv(st, a.lv, v.S, fr)
 		return
 	}
 	p := a.tv.S
@@ -558,12 +562,12 @@ func (vc *FnVC) doStore(x *ssa.Store, st *State) {
 
 // frameCheck: a write to component comp at ref must be allowed by the modifies clause or
 // target an object allocated in this activation.
-func (vc *FnVC) frameCheck(st *State, comp, ref string) {
-	if vc.fc == nil || vc.modAll {
-		return
-	}
+func (vc *FnVC) frameCheck(st *State, comp, ref string) (fresh bool) {
 	if ref != "" && vc.freshRef[ref] {
-		return
+		return true
+	}
+	if vc.fc == nil || vc.modAll {
+		return false
 	}
 	var alts []string
 	if ref != "" {
@@ -571,18 +575,23 @@ func (vc *FnVC) frameCheck(st *State, comp, ref string) {
 		// addresses of embedded structs / elements of fresh objects
 		alts = append(alts, vc.derivedFresh(ref)...)
 	}
+	inMod := false
 	for _, m := range vc.modset {
 		if m.comp != comp {
 			continue
 		}
+		inMod = true
 		if m.ref == "" {
-			return
+			return false
 		}
 		if ref != "" {
 			alts = append(alts, eq(ref, m.ref))
 		}
 	}
 	vc.oblige("frame", comp, or(alts...), vc.fnTags(), "write outside the modifies clause")
+	// the obligation is assumed from here on: with no modifies entry for this component the
+	// target is an object allocated in this activation
+	return !inMod && ref != ""
 }
 
 // derivedFresh: (emb$.. r) is fresh when r is.
@@ -859,6 +868,10 @@ func (vc *FnVC) doTypeAssert(x *ssa.TypeAssert, st *State) {
 		ok = eq("(if-tag "+v.S+")", fmt.Sprint(tag))
 		res = vc.enc.unbox("(if-data "+v.S+")", at)
 	}
+	if _, isIface := at.Underlying().(*types.Interface); !isIface && vc.enc.sortOf(at) != sInt {
+		// values of this dynamic type were made by boxing: box(unbox(d)) == d
+		vc.emit(implies(ok, eq(vc.enc.box(res, at), "(if-data "+v.S+")")))
+	}
 	if x.CommaOk {
 		okName := vc.enc.freshConst("ok$"+sanitize(x.Name()), sBool)
 		vc.emit(eq(okName, ok))
@@ -953,12 +966,12 @@ func (vc *FnVC) doMapUpdate(x *ssa.MapUpdate, st *State) {
 	if !vc.freshRef[m] {
 		vc.safety("nil-map-write("+describeValue(x.Map)+")", not(eq(m, "0")))
 	}
-	vc.frameCheck(st, mh, m)
+	fr := vc.frameCheck(st, mh, m)
 	has := sel(sel(vc.cur(st, mh), m), k)
 	ml := vc.cur(st, "ML")
-	vc.setComp(st, "ML", sto(ml, m, ite(has, sel(ml, m), "(+ "+sel(ml, m)+" 1)")))
-	vc.setComp(st, mh, sto(vc.cur(st, mh), m, sto(sel(vc.cur(st, mh), m), k, "true")))
-	vc.setComp(st, mv, sto(vc.cur(st, mv), m, sto(sel(vc.cur(st, mv), m), k, v)))
+	vc.setCompF(st, "ML", sto(ml, m, ite(has, sel(ml, m), "(+ "+sel(ml, m)+" 1)")), fr)
+	vc.setCompF(st, mh, sto(vc.cur(st, mh), m, sto(sel(vc.cur(st, mh), m), k, "true")), fr)
+	vc.setCompF(st, mv, sto(vc.cur(st, mv), m, sto(sel(vc.cur(st, mv), m), k, v)), fr)
 }
 
 // mapHas / mapGet: lookups with Go semantics (absent key reads as zero; nil map is empty).
@@ -1055,7 +1068,7 @@ func (vc *FnVC) doSlice(x *ssa.Slice, st *State) {
 			nc := vc.enc.freshConst("viewc", arraySort(sInt, es))
 			q := vc.enc.freshName("qi")
 			vc.assume("(forall ((" + q + " Int)) (! (= (select " + nc + " " + q + ") (select (select " + vc.cur(st, comp) + " (sl-arr " + s + ")) (+ " + q + " " + lo + "))) :pattern ((select " + nc + " " + q + "))))")
-			vc.setComp(st, comp, sto(vc.cur(st, comp), r, nc))
+			vc.setCompFresh(st, comp, sto(vc.cur(st, comp), r, nc))
 			vc.define(x, "(mk-slice "+r+" (- "+hi+" "+lo+") (- "+mx+" "+lo+"))")
 		}
 	case *types.Pointer: // *array
@@ -1198,10 +1211,10 @@ func (vc *FnVC) doMakeClosure(x *ssa.MakeClosure, st *State) {
 	fn := x.Fn.(*ssa.Function)
 	comps := vc.closureComps(x)
 	r := vc.newRef(st, "clos")
-	vc.setComp(st, "ClosFn", sto(vc.cur(st, "ClosFn"), r, vc.funcRef(fn)))
+	vc.setCompFresh(st, "ClosFn", sto(vc.cur(st, "ClosFn"), r, vc.funcRef(fn)))
 	for i, b := range x.Bindings {
 		c := comps[i+1]
-		vc.setComp(st, c, sto(vc.cur(st, c), r, vc.term(b).S))
+		vc.setCompFresh(st, c, sto(vc.cur(st, c), r, vc.term(b).S))
 	}
 	vc.setTerm(x, r)
 }
